@@ -170,6 +170,7 @@ pub struct Mat {
     pub delete_roller: bool, // use DeleteRoller (true) or FixedWindowRoller with count 0 (false) when Roller=delete/count=0
     pub via_config: bool,    // build the appender through the configuration deserializers instead of the builders
     pub dir_pattern: bool,   // the index is in a directory component of the archive pattern (<dir>/w{}/arch.log)
+    pub cross_mount: bool,   // the active file lives on another filesystem than the archives (rename fails, copy fallback)
 }
 
 /// harness trigger kind `scripted` for configuration-built appenders
@@ -190,6 +191,7 @@ impl log4rs::config::Deserialize for ScriptedDeserializer {
 }
 
 struct World {
+    act_dir: Option<PathBuf>,
     dir: PathBuf,
     mat: Mat,
     base: i64,
@@ -199,7 +201,7 @@ struct World {
 
 impl World {
     fn act(&self) -> PathBuf {
-        self.dir.join("active.log")
+        self.act_dir.as_ref().unwrap_or(&self.dir).join("active.log")
     }
     fn arch(&self, i: i64) -> PathBuf {
         PathBuf::from(self.pattern().replace("{}", &i.to_string()))
@@ -265,6 +267,13 @@ impl World {
                 strays.push(e.file_name().to_string_lossy().to_string());
             }
         }
+        if let Some(ad) = &self.act_dir {
+            for e in fs::read_dir(ad).into_iter().flatten().flatten() {
+                if e.path() != self.act() {
+                    strays.push(format!("<active dir>/{}", e.file_name().to_string_lossy()));
+                }
+            }
+        }
         json!({"act": entry(&self.act(), false), "arch": arch, "strays": strays})
     }
 }
@@ -293,7 +302,19 @@ pub fn replay_case(case: &Value, mat: Mat) -> Option<Value> {
     let trig = p["trig"].as_str().unwrap().to_string();
     let limit = p["limit"].as_u64().unwrap();
     let scratch = Scratch::new("roll");
-    let mut world = World { dir: scratch.path().join("d0"), mat, base, count, window };
+    let other = if mat.cross_mount {
+        // crash images are single-directory copies: histories with process death are left to the other materialisations
+        if case["ops"].as_array().unwrap().iter().any(|o| o["res"] == "crash") {
+            return None;
+        }
+        match Scratch::other_mount("roll") {
+            Some(s) => Some(s),
+            None => return None,
+        }
+    } else {
+        None
+    };
+    let mut world = World { act_dir: other.as_ref().map(|s| s.path().to_path_buf()), dir: scratch.path().join("d0"), mat, base, count, window };
     fs::create_dir_all(&world.dir).unwrap();
     let mut generation = 0;
     install_hook();
@@ -494,10 +515,11 @@ pub fn main(args: &[String]) {
     quiet_panics();
     let rows = read_ndjson(&args[0]);
     let mats = [
-        Mat { unit: 10, gz: false, chunked: false, delete_roller: true, via_config: false, dir_pattern: false },
-        Mat { unit: 400, gz: false, chunked: true, delete_roller: false, via_config: false, dir_pattern: false },
-        Mat { unit: 16, gz: true, chunked: false, delete_roller: true, via_config: true, dir_pattern: false },
-        Mat { unit: 12, gz: false, chunked: false, delete_roller: false, via_config: true, dir_pattern: true },
+        Mat { unit: 10, gz: false, chunked: false, delete_roller: true, via_config: false, dir_pattern: false, cross_mount: false },
+        Mat { unit: 400, gz: false, chunked: true, delete_roller: false, via_config: false, dir_pattern: false, cross_mount: false },
+        Mat { unit: 16, gz: true, chunked: false, delete_roller: true, via_config: true, dir_pattern: false, cross_mount: false },
+        Mat { unit: 12, gz: false, chunked: false, delete_roller: false, via_config: true, dir_pattern: true, cross_mount: false },
+        Mat { unit: 14, gz: false, chunked: false, delete_roller: false, via_config: false, dir_pattern: false, cross_mount: true },
     ];
     let res = par_map(&rows, threads(), |i, c| {
         let mut out = vec![];
@@ -515,5 +537,6 @@ pub fn main(args: &[String]) {
         out
     });
     write_ndjson(&args[1], &res);
-    println!("{}", json!({"cases": rows.len(), "materialisations": mats.len(), "mismatches": res.len()}));
+    println!("{}", json!({"cases": rows.len(), "materialisations": mats.len(), "mismatches": res.len(),
+                          "cross_mount_available": Scratch::other_mount("probe").is_some()}));
 }
